@@ -10,6 +10,7 @@ package explore
 import (
 	"encoding/json"
 	"fmt"
+	"sort"
 	"time"
 
 	"verif/vs"
@@ -50,6 +51,7 @@ type Found struct {
 	Violation string   `json:"violation"`
 	Msg       string   `json:"msg"`
 	Events    []string `json:"events,omitempty"`
+	Promoted  []string `json:"promoted,omitempty"` // access sites that were scheduling points in this run
 }
 
 type Stats struct {
@@ -64,9 +66,11 @@ type Stats struct {
 	Outcomes     map[string]int64 `json:"outcomes"` // outcome class -> count (over executions where threads met)
 	Found        []Found          `json:"found"`
 	BoundDone    int              `json:"bound_done"` // largest bound completed for every scenario explored
+	Races        map[string]int64 `json:"races"`      // unordered conflicting plain accesses -> executions showing them
+	Accesses     int64            `json:"accesses"`   // instrumented plain accesses checked against the clocks
 }
 
-func NewStats() *Stats { return &Stats{Outcomes: map[string]int64{}, BoundDone: -1} }
+func NewStats() *Stats { return &Stats{Outcomes: map[string]int64{}, Races: map[string]int64{}, BoundDone: -1} }
 
 func (a *Stats) Merge(b *Stats) {
 	a.Executions += b.Executions
@@ -83,6 +87,30 @@ func (a *Stats) Merge(b *Stats) {
 		a.Outcomes[k] += v
 	}
 	a.Found = append(a.Found, b.Found...)
+	a.Accesses += b.Accesses
+	for k, v := range b.Races {
+		a.Races[k] += v
+	}
+}
+
+// PromotedSites lists vs.Promoted in canonical order.
+func PromotedSites() []string {
+	var out []string
+	for k := range vs.Promoted {
+		out = append(out, k)
+	}
+	sort.Strings(out)
+	return out
+}
+
+// SetPromoted replaces vs.Promoted.
+func SetPromoted(sites []string) {
+	vs.Promoted = map[string]bool{}
+	for _, s := range sites {
+		if s != "" {
+			vs.Promoted[s] = true
+		}
+	}
 }
 
 type Explorer struct {
@@ -119,6 +147,12 @@ func (e *Explorer) run(sc Scenario, prefix []int) *vs.Sched {
 	if o.Inconclusive {
 		st.Inconclusive++
 	}
+	st.Accesses += s.Accesses()
+	for _, r := range s.Races() {
+		if len(st.Races) < 200 {
+			st.Races[r.String()]++
+		}
+	}
 	if s.Met {
 		st.Met++
 		if len(st.Outcomes) < 5000 {
@@ -132,7 +166,7 @@ func (e *Explorer) run(sc Scenario, prefix []int) *vs.Sched {
 			if len(ev) > 60 {
 				ev = ev[len(ev)-60:]
 			}
-			st.Found = append(st.Found, Found{Spec: sc.Spec, Choices: s.Choices(), Violation: o.Violation, Msg: o.Msg, Events: ev})
+			st.Found = append(st.Found, Found{Spec: sc.Spec, Choices: s.Choices(), Violation: o.Violation, Msg: o.Msg, Events: ev, Promoted: PromotedSites()})
 		}
 	}
 	return s
